@@ -275,3 +275,42 @@ Example ex_run :
        ++ [LF] ++ s "Overlap:" ++ [LF] ++ s "s1 c:1-10(-) Painted" ++ [LF] ++ s "s2 c:5-6(.)" ++ [LF])
       None.
 Proof. vm_compute. reflexivity. Qed.
+
+(* ------------------------------------------------------------ AGP -> TPF -> AGP through the command *)
+Lemma tags_ok_nil : tags_ok [].
+Proof. unfold tags_ok. cbn. auto. Qed.
+
+Lemma agp_wf_drop_tags a : agp_wf a -> agp_wf (drop_tags a).
+Proof.
+  intros (Hh & Hs & Ha). unfold drop_tags. split; [exact Hh|]. cbn [a_header a_scaffolds]. split.
+  - apply Forall_forall. intros sc Hin. apply in_map_iff in Hin as (sc0 & E & Hin0). subst sc. cbn [fst snd].
+    rewrite Forall_forall in Hs. destruct (Hs _ Hin0) as (Hn & Hne & Hr). split; [exact Hn|]. split.
+    + destruct (snd sc0); [contradiction Hne; reflexivity | discriminate].
+    + apply Forall_forall. intros r Hr0. apply in_map_iff in Hr0 as (r0 & E & Hr1). subst r.
+      rewrite Forall_forall in Hr. specialize (Hr _ Hr1). destruct r0 as [f|g]; cbn [drop_tags_row row_ok_agp] in *; [|exact Hr].
+      destruct Hr as (H1 & H2 & H3 & H4 & _). unfold frag_ok_agp. cbn. repeat split; try assumption. apply tags_ok_nil.
+  - rewrite map_map. cbn [fst]. exact Ha.
+Qed.
+
+(* converting an assembly from AGP to TPF with the command, and the result back to
+   AGP with the command, changes nothing except dropping the tags *)
+Theorem asm_format_agp_tpf_agp nm nm' a t :
+  agp_wf a -> tpf_wf (drop_tags a) -> format_agp a = Ok t ->
+  exists t_tpf t2,
+    process_fh (s "AGP") nm t (s "TPF") false = Ok (t_tpf, [])
+    /\ process_fh (s "TPF") nm' t_tpf (s "AGP") false = Ok (t2, [])
+    /\ format_agp (drop_tags a) = Ok t2.
+Proof.
+  intros Hwf Htpf Hf.
+  destruct (parse_format_agp a Hwf) as (t' & Ht' & Hp). rewrite Hf in Ht'. inversion Ht'; subst t'.
+  destruct (agp_tpf_agp a Hwf Htpf) as (t_tpf & Hft & Hpt).
+  destruct (parse_format_agp (drop_tags a) (agp_wf_drop_tags a Hwf)) as (t2 & Hf2 & _).
+  exists t_tpf, t2. split; [|split; [|exact Hf2]].
+  - rewrite process_fh_unfold. unfold parse_as, format_as.
+    change (str_eqb (s "AGP") (s "AGP")) with true. cbn iota. rewrite Hp. cbn [bind].
+    change (str_eqb (s "TPF") (s "AGP")) with false. change (str_eqb (s "TPF") (s "TPF")) with true. cbn iota.
+    rewrite Hft. cbn [bind]. reflexivity.
+  - rewrite process_fh_unfold. unfold parse_as, format_as.
+    change (str_eqb (s "TPF") (s "AGP")) with false. change (str_eqb (s "TPF") (s "TPF")) with true. cbn iota.
+    rewrite Hpt. cbn [bind]. change (str_eqb (s "AGP") (s "AGP")) with true. cbn iota. rewrite Hf2. cbn [bind]. reflexivity.
+Qed.
